@@ -52,8 +52,15 @@ struct Out {
     notes: Vec<String>,
 }
 
+/// `text` = main file, optionally followed by `\x1e` and the text of `lib1.abra`
 fn analyze(text: &str) -> Out {
     let mut o = Out::default();
+    let (text, lib) = match text.split_once('\x1e') {
+        Some((m, l)) => (m, Some(l.to_string())),
+        None => (text, None),
+    };
+    let extra: Vec<(String, String)> = lib.into_iter().map(|l| ("lib1.abra".to_string(), l)).collect();
+    let extra = &extra;
     let mut run = |api: &str, f: &dyn Fn() -> String, o: &mut Out| -> String {
         match catch_unwind(AssertUnwindSafe(f)) {
             Ok(s) => s,
@@ -65,7 +72,7 @@ fn analyze(text: &str) -> Out {
     };
     o.check = run(
         "check",
-        &|| match abra_core::check("main.abra", provider(text, &[])) {
+        &|| match abra_core::check("main.abra", provider(text, extra)) {
             Ok(()) => "ok".into(),
             Err(e) => if e.to_string().trim().is_empty() { "diag-empty".into() } else { "diag".into() },
         },
@@ -73,13 +80,13 @@ fn analyze(text: &str) -> Out {
     );
     o.compile = run(
         "compile_bytecode",
-        &|| match abra_core::compile_bytecode("main.abra", provider(text, &[])) {
+        &|| match abra_core::compile_bytecode("main.abra", provider(text, extra)) {
             Ok(_) => "ok".into(),
             Err(e) => if e.to_string().trim().is_empty() { "diag-empty".into() } else { "diag".into() },
         },
         &mut o,
     );
-    o.lsp = run("check_lsp", &|| abra_core::check_lsp("main.abra", provider(text, &[])).errors().len().to_string(), &mut o);
+    o.lsp = run("check_lsp", &|| abra_core::check_lsp("main.abra", provider(text, extra)).errors().len().to_string(), &mut o);
     o.lex = impl_lex(text, true);
     o
 }
@@ -202,13 +209,46 @@ fn main() {
         jobs.push(("garbage".into(), garbage(&mut ctx.rng)));
     }
     jobs.extend(deep_texts());
+    // two-file texts: every import form over a damaged / truncated / self-importing library file
+    let heads = ["use lib1\n", "use lib1.(f, Pt)\n", "use lib1 except (f)\n", "use lib1 as lb\n", "use lib1\nuse lib1\n", "use lib1.(nothere)\n", "use main\nuse lib1\n"];
+    let n_imp = if quick { 120 } else { 6000 };
+    for k in 0..n_imp {
+        let (_, base) = ctx.rng.pick(&corpus).clone();
+        let lib = match k % 4 {
+            0 => base.clone(),
+            1 => mutate(&mut ctx.rng, &base).0,
+            2 => {
+                let ps = prefixes(&base, true, 1);
+                base[..*ctx.rng.pick(&ps)].to_string()
+            }
+            _ => format!("use main\n{}", mutate(&mut ctx.rng, &base).0),
+        };
+        let head = *ctx.rng.pick(&heads);
+        let body = *ctx.rng.pick(&["let a = f(1)\n", "let p = Pt(1, 2)\nprintln(p.x)\n", "println(lb.f(1))\n", "fn f(x: int) -> int { x }\nprintln(f(2))\n", ""]);
+        jobs.push((format!("import:{}", ["whole", "mutated", "prefix", "cyclic"][k % 4]), format!("{head}{body}\x1e{lib}")));
+    }
     let nw = n_threads();
     // probes of the confirmed crashes whose fix is pending (see fecorpus::GATES)
-    let gate_inputs: Vec<String> = GATES.iter().map(|(_, t)| t.to_string()).collect();
+    let gate_inputs: Vec<String> = GATES.iter().map(|(_, _, t)| t.to_string()).collect();
     let gate_res = run_workers(&["--worker"], &gate_inputs, GATES.len(), std::time::Duration::from_secs(20));
     let mut gated_sites: BTreeMap<String, String> = BTreeMap::new();
     let mut gate_aborts: Option<&str> = None;
-    for ((id, _), r) in GATES.iter().zip(gate_res) {
+    for ((id, pending, text), r) in GATES.iter().zip(gate_res) {
+        if !pending {
+            // the fix has landed: a regression input
+            let crashed = match &r {
+                Res::Died(why) => Some(format!("takes the process down ({why})")),
+                Res::Ok(s) => {
+                    let o = decode(s);
+                    if o.crashes.is_empty() { None } else { Some(format!("panics ({:?})", o.crashes[0])) }
+                }
+            };
+            match crashed {
+                Some(how) => ctx.spec_fail(format!("regression of {id} (fixed earlier): the front end {how} on {:?}", text)),
+                None => ctx.count("regression-probe:pass"),
+            }
+            continue;
+        }
         match r {
             Res::Died(why) => {
                 gate_aborts = Some(id);
@@ -232,7 +272,7 @@ fn main() {
     let mut seen: BTreeMap<String, u64> = BTreeMap::new();
     let mut disagree = 0;
     for ((label, text), r) in jobs.iter().zip(results) {
-        let kind = label.split(':').take(if label.starts_with("mut") || label.starts_with("deep") || label.starts_with("long") { 2 } else { 1 }).collect::<Vec<_>>().join(":");
+        let kind = label.split(':').take(if label.starts_with("mut") || label.starts_with("deep") || label.starts_with("long") || label.starts_with("import") { 2 } else { 1 }).collect::<Vec<_>>().join(":");
         let kind = kind.trim_end_matches(|c: char| c.is_ascii_digit()).to_string();
         ctx.count(&format!("text:{kind}"));
         if !text.is_ascii() {
@@ -293,7 +333,8 @@ fn main() {
             }
         } else {
             ctx.count(if o.lex.contains("| U/") || o.lex.contains("| E/") || o.lex.contains(" U/") { "lex:diagnostics" } else { "lex:clean" });
-            ctx.case(format!("lex {} #{}", hex_str(text), label.replace(' ', "_")), o.lex.clone());
+            let main_text = text.split('\x1e').next().unwrap_or("");
+            ctx.case(format!("lex {} #{}", hex_str(main_text), label.replace(' ', "_")), o.lex.clone());
         }
     }
     for (s, n) in &seen {
